@@ -18,6 +18,14 @@ Proof.
   specialize (H c Hc). apply mem_In in Hc2. rewrite Hc2 in H. discriminate.
 Qed.
 
+Lemma assoc_In : forall (T : Type) a (l : list (name * T)) v, assoc a l = Some v -> In (a, v) l.
+Proof.
+  induction l as [|[b w] t IH]; intros v H; cbn in H; [discriminate|].
+  destruct (String.eqb a b) eqn:E.
+  - apply String.eqb_eq in E. subst. inversion H. left. reflexivity.
+  - right. apply IH. exact H.
+Qed.
+
 Local Opaque deps.
 
 Section Coherence.
@@ -46,8 +54,17 @@ Section Coherence.
 
   Lemma op_ok_all : forall o, In o (all_ops inv) -> op_ok inv o = true.
   Proof.
-    intros o Ho. unfold inventory_ok in inv_ok. apply andb_prop in inv_ok. destruct inv_ok as [H1 _].
+    intros o Ho. unfold inventory_ok in inv_ok. apply andb_prop in inv_ok. destruct inv_ok as [H12 _].
+    apply andb_prop in H12. destruct H12 as [H1 _].
     rewrite forallb_forall in H1. apply H1. exact Ho.
+  Qed.
+
+  (* the regenerated clause "observers do not write": no observer of the inventory mutates a cached object *)
+  Lemma observers_pure : forall ob, obs_writes_of inv ob = [].
+  Proof.
+    intros ob. unfold obs_writes_of. destruct (assoc ob (inv_obs_writes inv)) as [l|] eqn:E; [|reflexivity].
+    apply assoc_In in E. unfold inventory_ok in inv_ok. apply andb_prop in inv_ok. destruct inv_ok as [_ H3].
+    rewrite forallb_forall in H3. specialize (H3 _ E). cbn in H3. destruct l; [reflexivity|discriminate].
   Qed.
 
   Lemma lookup_coherent : forall h a, coherent h -> lookup h a = compute a (gr h).
@@ -94,7 +111,8 @@ Section Coherence.
   Proof.
     intros o arg h c Ho Hc. cbn. apply eff_frame.
     - unfold all_ops. apply in_or_app. left. exact Ho.
-    - unfold inventory_ok in inv_ok. apply andb_prop in inv_ok. destruct inv_ok as [_ H2].
+    - unfold inventory_ok in inv_ok. apply andb_prop in inv_ok. destruct inv_ok as [H12 _].
+      apply andb_prop in H12. destruct H12 as [_ H2].
       rewrite forallb_forall in H2. specialize (H2 o Ho).
       intros Hw. exact (disjointb_spec _ _ H2 c Hw Hc).
   Qed.
@@ -130,17 +148,18 @@ Section Coherence.
   Proof. intros P st i h Hf Hn. rewrite Forall_forall in Hf. apply Hf. eapply nth_error_In. exact Hn. Qed.
 
   Lemma step_ok_all : forall s, step_ok inv X A s ->
-    match s with SObs _ _ _ => True | SDerive _ o _ => In o (all_ops inv) | SMutate _ o _ => In o (all_ops inv) end.
-  Proof. intros [i r f|i o a|i o a] H; cbn in *; auto; unfold all_ops; apply in_or_app; auto. Qed.
+    match s with SObs _ _ _ _ _ => True | SDerive _ o _ => In o (all_ops inv) | SMutate _ o _ => In o (all_ops inv) end.
+  Proof. intros [i ob r f scr|i o a|i o a] H; cbn in *; auto; unfold all_ops; apply in_or_app; auto. Qed.
 
   Lemma run1_refines : forall s st st' ans,
     step_ok inv X A s -> Forall coherent st -> run1 s st = (st', ans) ->
     spec1 s (map gr st) = (map gr st', ans) /\ Forall coherent st'.
   Proof.
     intros s st st' ans Hs Hc Hr. pose proof (step_ok_all s Hs) as Ho.
-    destruct s as [i reads f|i o arg|i o arg]; cbn in *; rewrite nth_error_map_gr;
+    destruct s as [i ob reads f scr|i o arg|i o arg]; cbn in *; rewrite nth_error_map_gr;
       destruct (nth_error st i) as [h|] eqn:En; cbn; try (inversion Hr; subst; split; [reflexivity|exact Hc]).
     - (* observer *)
+      unfold observe in Hr. rewrite observers_pure in Hr. cbn in Hr.
       inversion Hr; subst. pose proof (Forall_nth _ _ _ _ Hc En) as Hh. split.
       + rewrite map_replace. rewrite fold_fill_gr.
         rewrite (replace_same _ (map gr st) i (gr h)) by (rewrite nth_error_map_gr, En; reflexivity).
@@ -197,13 +216,14 @@ Definition toy_append (keep : bool) : opinfo :=
 
 Definition toy_inv (keep : bool) : inventory :=
   mk_inv ["_info"] [("_info", ["row_groups"]); ("row_groups", ["fmd.row_groups"])] ["fmd.row_groups"]
-         [] [toy_append keep] [].
+         [] [toy_append keep] [] [].
 
 Definition toy_compute (a : name) (g : ground nat) : nat := g "fmd.row_groups".
 Definition toy_eff (o : name) (n : nat) (g : ground nat) : ground nat :=
   fun c => if String.eqb c "fmd.row_groups" then g c + n else g c.
 Definition toy_prog (keep : bool) : list (step nat nat) :=
-  [SObs 0 ["_info"] (fun l _ => hd 0 l); SMutate 0 (toy_append keep) 4; SObs 0 ["_info"] (fun l _ => hd 0 l)].
+  [SObs 0 "info" ["_info"] (fun l _ => hd 0 l) (fun x => x); SMutate 0 (toy_append keep) 4;
+   SObs 0 "info" ["_info"] (fun l _ => hd 0 l) (fun x => x)].
 
 Lemma toy_bad_rejected : inventory_ok (toy_inv true) = false /\ offenders (toy_inv true) = [("write_row_groups", "_info")].
 Proof. vm_compute. split; reflexivity. Qed.
@@ -228,3 +248,20 @@ Proof. vm_compute. repeat split; reflexivity. Qed.
 From Pq Require Import Dataset.HandlePinned.
 Lemma pinned_inventory_ok : inventory_ok pinned_inv = true /\ offenders pinned_inv = [].
 Proof. vm_compute. split; reflexivity. Qed.
+
+(* necessity of the clause "observers do not write": an observer that edits the cached statistics in place (the shape of
+   sorted_partitioned_columns filtering pf.statistics) is rejected, and the next reader of the cache gets the edited value *)
+Definition toy_obs_inv (writes : bool) : inventory :=
+  mk_inv ["_statistics"] [("_statistics", ["fmd.row_groups"])] ["fmd.row_groups"] [] [] []
+         [("statistics", []); ("sorted_partitioned_columns", if writes then ["_statistics"] else [])].
+Definition toy_obs_prog : list (step nat nat) :=
+  [SObs 0 "statistics" ["_statistics"] (fun l _ => hd 0 l) (fun x => x);
+   SObs 0 "sorted_partitioned_columns" ["_statistics"] (fun l _ => hd 0 l) (fun _ => 0);
+   SObs 0 "statistics" ["_statistics"] (fun l _ => hd 0 l) (fun x => x)].
+Lemma toy_observer_writes :
+  inventory_ok (toy_obs_inv true) = false /\ offenders (toy_obs_inv true) = [("sorted_partitioned_columns", "_statistics")] /\
+  inventory_ok (toy_obs_inv false) = true /\
+  snd (run (toy_obs_inv true) nat nat toy_compute toy_eff toy_obs_prog [fresh nat (fun _ => 6)]) = [6; 6; 0] /\
+  snd (run_spec nat nat toy_compute toy_eff toy_obs_prog [fun _ => 6]) = [6; 6; 6] /\
+  snd (run (toy_obs_inv false) nat nat toy_compute toy_eff toy_obs_prog [fresh nat (fun _ => 6)]) = [6; 6; 6].
+Proof. vm_compute. repeat split; reflexivity. Qed.
